@@ -2,7 +2,7 @@
    While they run the CFG is NOT closed (the edges into the patch are added before the patch's blocks are), so the statement is about
    the state they leave: `insert_body`, the exact sequence of Edit.insert (insert_unfold). *)
 From Coq Require Import ZArith List Bool Arith Lia.
-From GR Require Import Base.Result Adt.RefCache Adt.RetCache IR.State IR.Modify IR.Edit IR.Agree IR.BytesProofs IR.BytesApply IR.Flow IR.Funcs IR.CfgClosed.
+From GR Require Import Base.Result Adt.RefCache Adt.RetCache Adt.RetCacheProofs IR.State IR.Modify IR.Edit IR.Agree IR.Frame IR.BytesProofs IR.BytesApply IR.Flow IR.Funcs IR.CfgClosed.
 Import ListNotations.
 Open Scope Z_scope.
 
@@ -308,4 +308,130 @@ Proof.
     assert (A : agree m_bp s (update_fallthrough_target s b first)) by (apply agree_update_fallthrough_target; [reflexivity|apply agree_refl]).
     destruct A as [A _]. pose proof (A FBlocks eq_refl) as B. cbn [proj_eq] in B. rewrite B. reflexivity. }
   rewrite Hc. destruct (is_code s end_block && bkind_eqb lastk KCode); reflexivity.
+Qed.
+
+(* ---- _update_patch_return_edges_to_match: the patch's `ret`s return where the function's do ---- *)
+Lemma dedup_nat_In l x : In x (dedup_nat l) <-> In x l.
+Proof.
+  unfold dedup_nat.
+  assert (H : forall acc, In x (fold_left (fun acc y => nadd y acc) l acc) <-> In x acc \/ In x l).
+  { induction l as [|y l IH]; intros acc; cbn [fold_left In]; [tauto|]. rewrite IH, nadd_In. intuition (subst; auto). }
+  rewrite H. cbn. tauto.
+Qed.
+Lemma fold_add_In {A} (mk : A -> edge) l : forall pc x,
+  In x (fold_left (fun pc t => cfg_add (mk t) pc) l pc) -> In x pc \/ exists t, In t l /\ x = mk t.
+Proof.
+  induction l as [|t l IH]; intros pc x H; cbn [fold_left] in H; [left; exact H|].
+  apply IH in H. destruct H as [H|(t' & Ht & E)]; [|right; exists t'; split; [right; exact Ht|exact E]].
+  unfold cfg_add in H. apply es_add_In in H. destruct H as [->|H]; [right; exists t; split; [left; reflexivity|reflexivity]|left; exact H].
+Qed.
+
+(* every proxy of the patch is the target of one edge of the patch (the assembler makes a fresh proxy per return / indirect transfer:
+   C12's clause) *)
+Definition no_shared_proxy (pcfg : list edge) (pprox : list nat) : Prop :=
+  forall e e', In e pcfg -> In e' pcfg -> tgt e = tgt e' -> is_proxy (tgt e) = true -> In (nid (tgt e)) pprox -> e = e'.
+
+Lemma EP_update_patch_return_edges s b p pcfg pprox :
+  Closed s -> no_shared_proxy pcfg pprox -> EP (P3 s p) (Q3 s p pprox) pcfg ->
+  EP (P3 s p) (Q3 s p (snd (update_patch_return_edges s b pcfg pprox))) (fst (update_patch_return_edges s b pcfg pprox)).
+Proof.
+  intros HC HN Hp. unfold update_patch_return_edges.
+  set (pres := filter (fun e => is_ret e && is_proxy (tgt e) && nmem (nid (tgt e)) pprox) pcfg).
+  assert (Hpres : forall e, In e pres -> In e pcfg /\ is_proxy (tgt e) = true /\ In (nid (tgt e)) pprox).
+  { intros e He. unfold pres in He. apply filter_In in He. destruct He as [A B]. apply andb_prop in B. destruct B as [B C]. apply andb_prop in B. destruct B as [_ B].
+    split; [exact A|split; [exact B|apply nmem_In, C]]. }
+  destruct pres as [|e0 pres'] eqn:Epres; [exact Hp|]. rewrite <- Epres in *. clear Epres e0 pres'.
+  destruct (aget b (fbb s)) as [f|]; [|exact Hp].
+  set (targets := dedup_nat _).
+  assert (Ht : forall t, In t targets -> live s (NB t)).
+  { intros t Hin. unfold targets in Hin. apply (proj1 (dedup_nat_In _ _)) in Hin. apply in_flat_map in Hin. destruct Hin as (fb & _ & Hin).
+    apply in_map_iff in Hin. destruct Hin as (e & <- & He). apply filter_In in He. destruct He as [He Hnp].
+    apply block_return_edges_In in He. destruct He as (Hc & _). pose proof (proj2 (HC e Hc)) as Hl.
+    destruct (tgt e) as [x|x]; [exact Hl|discriminate]. }
+  destruct targets as [|t0 ts] eqn:Et; [exact Hp|]. rewrite <- Et in *. clear Et t0 ts.
+  (* the fold, with its invariant *)
+  assert (G : forall l pc pp, (forall e, In e l -> In e pres) ->
+              EP (P3 s p) (Q3 s p pp) pc -> (forall e, In e pc -> is_proxy (tgt e) = true -> In e pcfg) -> incl pp pprox ->
+              let r := fold_left (fun acc e => let '(pc, pp) := acc in
+                                     (fold_left (fun pc t => cfg_add (mk_edge' (src e) (NB t) ET_RETURN) pc) targets (cfg_discard e pc), ndel (nid (tgt e)) pp))
+                                 l (pc, pp) in
+              EP (P3 s p) (Q3 s p (snd r)) (fst r)).
+  { induction l as [|e l IH]; intros pc pp Hl Ha Hb Hc; cbn [fold_left]; [exact Ha|].
+    destruct (Hpres e (Hl e (or_introl eq_refl))) as (E1 & E2 & E3).
+    apply IH.
+    - intros e' He'. apply Hl. right. exact He'.
+    - apply EP_fold_add.
+      + intros t Hin. cbn [src tgt mk_edge']. split; [exact (proj1 (Hp e E1))|left; apply Ht, Hin].
+      + intros x Hx. unfold cfg_discard in Hx. apply es_discard_In in Hx. destruct Hx as [Hx Hne]. destruct (Ha x Hx) as [A B]. split; [exact A|].
+        destruct B as [B|B]; [left; exact B|]. right. destruct (tgt x) as [y|q] eqn:Etx; [exact B|].
+        apply ndel_In. split; [exact B|]. intros Hq. apply Hne.
+        assert (Hxp : is_proxy (tgt x) = true) by (rewrite Etx; reflexivity).
+        apply (HN x e); [apply Hb; assumption|exact E1| |exact Hxp|rewrite Etx; apply Hc, B].
+        destruct (tgt e) as [y|q'] eqn:Ete; [discriminate|]. cbn [nid] in Hq. rewrite Etx. subst. reflexivity.
+    - intros x Hx Hpx. apply fold_add_In in Hx. destruct Hx as [Hx|(t & _ & ->)]; [|cbn in Hpx; discriminate].
+      unfold cfg_discard in Hx. apply es_discard_In in Hx. apply Hb; [exact (proj1 Hx)|exact Hpx].
+    - intros q Hq. apply ndel_In in Hq. apply Hc, (proj1 Hq). }
+  apply (G pres pcfg pprox); [auto|exact Hp|auto|apply incl_refl].
+Qed.
+
+(* ---- split_block keeps every block of the module and adds the tail ---- *)
+Lemma live_split_block s b off nb ft s' :
+  split_block s b off = Ok (nb, ft, s') -> live s (NB b) ->
+  (forall n, live s n -> live s' n) /\ live s' (NB b) /\ live s' (NB nb).
+Proof.
+  intros E Hb. pose proof (split_block_spec _ _ _ _ _ _ E) as (Hnb & _ & _ & _ & Hbl). subst nb.
+  unfold split_block in E. destruct (negb _); [discriminate|]. unfold fresh in E. cbn [fst snd] in E.
+  set (x := the_blk s b) in *.
+  set (s2 := set_blk (set_blk (set_next s (S (next s))) (next s) (mk_blk (bk x) (bbi x) (boff x + off) (bsize x - off))) b (mk_blk (bk x) (bbi x) (boff x) off)) in E.
+  set (s3 := split_move_syms s2 b (next s)) in E.
+  destruct (split_cfg s3 b (next s) (bkind_eqb (bk x) KCode) (off =? bsize x)) as [added s4] eqn:E4.
+  injection E as Ea Es.
+  assert (Hprox : proxies s' = proxies s).
+  { assert (A : agree (fun f => match f with FProxies => true | _ => false end) s s').
+    { rewrite <- Es. apply agree_order_insert_after; [reflexivity|]. apply agree_split_cfi; [reflexivity|]. apply agree_split_otabs; [reflexivity|].
+      pose proof (agree_split_cfg (fun f => match f with FProxies => true | _ => false end) s s3 b (next s) (bkind_eqb (bk x) KCode) (off =? bsize x) eq_refl eq_refl) as G.
+      rewrite E4 in G. cbn [snd] in G. apply G. unfold s3. apply agree_split_move_syms; [reflexivity|]. unfold s2.
+      apply agree_set_blk; [reflexivity|]. apply agree_set_blk; [reflexivity|]. apply agree_set_next_S; [reflexivity|apply agree_refl]. }
+    destruct A as (A & _). specialize (A FProxies eq_refl). cbn [proj_eq] in A. exact A. }
+  destruct Hb as (xb & Hxb & Hbi).
+  assert (Hx : x = xb) by (unfold x, the_blk; rewrite Hxb; reflexivity).
+  split; [|split].
+  - intros [c|p] Hn; cbn in *; [|rewrite Hprox; exact Hn]. rewrite Hbl. destruct Hn as (xc & Hc1 & Hc2).
+    destruct (Nat.eq_dec b c) as [->|Hne]; [rewrite aget_aset_same; eexists; split; [reflexivity|cbn; rewrite Hx; exact Hbi]|].
+    rewrite aget_aset_other by auto. destruct (Nat.eq_dec (next s) c) as [<-|Hne2]; [rewrite aget_aset_same; eexists; split; [reflexivity|cbn; rewrite Hx; exact Hbi]|].
+    rewrite aget_aset_other by auto. eauto.
+  - cbn; rewrite Hbl, aget_aset_same; eexists; split; [reflexivity|cbn; rewrite Hx; exact Hbi].
+  - cbn. rewrite Hbl. destruct (Nat.eq_dec b (next s)) as [->|Hne]; [rewrite aget_aset_same; eexists; split; [reflexivity|cbn; rewrite Hx; exact Hbi]|].
+    rewrite aget_aset_other by auto. rewrite aget_aset_same. eexists; split; [reflexivity|cbn; rewrite Hx; exact Hbi].
+Qed.
+
+(* ---- an insertion (nothing replaced): from the module and the assembled patch to the state handed to the clean-up ---- *)
+Lemma EP_P3Q3_mono s s' p pprox c : (forall n, live s n -> live s' n) -> EP (P3 s p) (Q3 s p pprox) c -> EP (P3 s' p) (Q3 s' p pprox) c.
+Proof.
+  intros H. apply EP_weaken.
+  - intros n [A [B|B]]; (split; [exact A|]); [left; apply H, B|right; exact B].
+  - intros n [A|A]; [left; apply H, A|right; exact A].
+Qed.
+
+Theorem Closed_insertion s b offset p first last lastk k0 o0 z0 o1 z1 pbs rbs bi :
+  Closed s -> live s (NB b) -> bbi (the_blk s b) = Some bi ->
+  p_blocks p = (first, k0, o0, z0) :: pbs -> rev (p_blocks p) = (last, lastk, o1, z1) :: rbs ->
+  no_shared_proxy (p_cfg p) (p_proxies p) -> EP (P3 s p) (Q3 s p (p_proxies p)) (p_cfg p) ->
+  forall end_block added_ft s1, insert_split s b offset 0 = Ok (end_block, added_ft, s1) ->
+  let code := bkind_eqb (bk (the_blk s b)) KCode in
+  let pp := if code then update_patch_return_edges s b (p_cfg p) (p_proxies p) else (p_cfg p, p_proxies p) in
+  Closed (insert_body s1 b first last lastk end_block added_ft bi offset 0 code p (fst pp) (snd pp)).
+Proof.
+  intros HC Hb Hbi Hpb Hrev HN Hp end_block added_ft s1 E. cbv zeta.
+  unfold insert_split in E. destruct (split_block s b offset) as [[[e1 ft1] s0]|] eqn:E1; cbn [bind] in E; [|discriminate].
+  change (negb (0 =? 0)) with false in E. cbn [bind] in E. injection E as <- <- <-.
+  destruct (live_split_block _ _ _ _ _ _ E1 Hb) as (L & Lb & Le).
+  pose proof (Closed_split_block _ _ _ _ _ _ E1 HC Hb) as HC1.
+  assert (Hfirst : In first (pblock_ids p)) by (unfold pblock_ids; rewrite Hpb; left; reflexivity).
+  assert (Hlast : In last (pblock_ids p)).
+  { unfold pblock_ids. apply in_map_iff. exists (last, lastk, o1, z1). split; [reflexivity|]. apply in_rev. rewrite Hrev. left. reflexivity. }
+  apply Closed_insert_body; try assumption.
+  apply (EP_P3Q3_mono s s0); [exact L|].
+  destruct (bkind_eqb (bk (the_blk s b)) KCode); [|exact Hp].
+  apply EP_update_patch_return_edges; assumption.
 Qed.
